@@ -1,9 +1,209 @@
 import QV.Driver.Util
+import QV.Model.Tsig
+import QV.Model.TsigMsg
+import QV.Spec.Tsig
+import QV.Spec.TsigMsg
+
+/-!
+  ops of group `tsig` (C11); formats are documented at the top of harness/src/g_tsig.rs.
+  Model column: `QV.Model.{Sha,Hmac,Tsig,TsigMsg}`.  Spec column: `QV.Spec.{Tsig,TsigMsg}` with the
+  HMAC primitive plugged in (for the `*vec` ops: the published test-vector value).
+-/
 
 namespace QV.Driver
-open QV
+open QV QV.Tsig
 
-/-- ops of group `tsig` — stub (not built yet) -/
-def tsigHandler : Handler := fun _ _ => none
+namespace TsigD
+
+def algArg (s : String) : Option Algorithm :=
+  if s = "hmac-sha1" then some .HmacSha1 else if s = "hmac-sha256" then some .HmacSha256 else none
+
+def shaArg (s : String) : Option (Bytes → Bytes) :=
+  if s = "sha1" then some Sha.sha1 else if s = "sha256" then some Sha.sha256 else none
+
+def modeArg (s : String) : Option Spec.Tsig.Mode :=
+  if s = "req" then some .request else if s = "resp" then some .response
+  else if s = "subs" then some .subsequent else none
+
+def timeArg (s : String) : Option TimeSigned := s.toNat?.bind TimeSigned.tryFromUnix
+
+def u16Arg (s : String) : Option UInt16 :=
+  match s.toNat? with
+  | some n => if n < 65536 then some (UInt16.ofNat n) else none
+  | none => none
+
+def hexL (l : Octets) : String := hexOfList l
+
+def unhexL (s : String) : Option Octets := (unhex s).map Array.toList
+
+/-- is `w` the uncompressed wire form of a name (what `Name::try_from_uncompressed_all` accepts)? -/
+def nameArg (s : String) : Option Octets :=
+  match unhex s with
+  | some b => match Wire.parseUncompressed b true with
+    | .ok _ => some b.toList
+    | _ => none
+  | none => none
+
+def showVerify (r : Out VerificationError Unit) : String :=
+  match r with
+  | .ok _ => "ok"
+  | .err e => "err:" ++ e.toString
+  | .panic => "panic"
+
+def showSign (r : Out Unit (Octets × Octets)) : String :=
+  match r with
+  | .ok (rdata, mac) => s!"ok {hexL mac} {hexL rdata}"
+  | .err _ => "err"
+  | .panic => "panic"
+
+/-- model: `PreparedTsigRr::sign_*` -/
+def modelSign (mode : Spec.Tsig.Mode) (p : PreparedTsigRr) (msg pmac : Octets) (alg : Algorithm) (key : Octets) :
+    Out Unit (Octets × Octets) :=
+  match mode with
+  | .request => signRequest realHmac p msg alg key
+  | .response => signResponse realHmac p msg pmac alg key
+  | .subsequent => signSubsequent realHmac p msg pmac alg key
+
+/-- model: `ReadTsigRr::verify_*` -/
+def modelVerify (mode : Spec.Tsig.Mode) (r : ReadTsigRr) (msg pmac : Octets) (alg : Algorithm) (key : Octets)
+    (now : TimeSigned) : Out VerificationError Unit :=
+  match mode with
+  | .request => verifyRequest realHmac r msg alg key now
+  | .response => verifyResponse realHmac r msg pmac alg key now
+  | .subsequent => verifySubsequent realHmac r msg pmac alg key now
+
+/-- spec: the labels of the algorithm's name and the output size of its hash (RFC 8945 §6) -/
+def specAlg (alg : Algorithm) : List Spec.Tsig.Octets × Nat :=
+  match alg with
+  | .HmacSha1 => Spec.Tsig.algorithms.getD 0 ([], 0)
+  | .HmacSha256 => Spec.Tsig.algorithms.getD 1 ([], 0)
+
+/-- spec: MAC and RDATA a signer must produce (RFC 8945 §4.2, §4.3; Other Data = server time iff
+    Error = BADTIME, §5.2.3), `-` when §4.3.2 does not apply to the message -/
+def specSign (mode : Spec.Tsig.Mode) (alg : Algorithm) (key msg keyname : Octets) (time fudge origid error servertime : Nat)
+    (pmac : Octets) : String :=
+  if ¬ Spec.Tsig.Applicable msg pmac then "-"
+  else match Spec.Tsig.labelsOf keyname with
+    | none => "-"
+    | some kn =>
+      let v : Spec.Tsig.Vars :=
+        { keyName := kn, algName := (specAlg alg).1, timeSigned := time, fudge := fudge, error := error,
+          other := if error = 18 then Spec.Tsig.u48 servertime else [] }
+      let tag := realHmac alg key (Spec.Tsig.digestInput mode msg origid v pmac)
+      s!"ok {hexL tag} {hexL (Spec.Tsig.rdata v tag origid)}"
+
+/-- spec: verdict on a message whose TSIG RR has owner `keyname` and RDATA `rdata` -/
+def specVerify (mode : Spec.Tsig.Mode) (alg : Algorithm) (key : Octets) (now : Nat) (msg keyname rdata pmac : Octets)
+    (badRdata : String) : String :=
+  match Spec.Tsig.parseRdata rdata, Spec.Tsig.labelsOf keyname with
+  | some f, some kn =>
+    -- the caller must pass the algorithm the RR names (precondition of `verify_*`)
+    if Spec.Tsig.outputSizeOf f.algName ≠ some (specAlg alg).2 then "-"
+    else if ¬ Spec.Tsig.Applicable msg pmac then "-"
+    else
+      let v : Spec.Tsig.Vars :=
+        { keyName := kn, algName := f.algName, timeSigned := f.timeSigned, fudge := f.fudge, error := f.error,
+          other := f.other }
+      let tag := realHmac alg key (Spec.Tsig.digestInput mode msg f.originalId v pmac)
+      (Spec.Tsig.verdict (specAlg alg).2 tag f.mac now f.timeSigned f.fudge).toString
+  | none, _ => badRdata
+  | _, none => "-"
+
+def showMsgOutcome : Msg.MsgOutcome → String
+  | .unreadable => "unreadable"
+  | .rrFormErr => "rr:FormErr"
+  | .rrNotTsig => "rr:NotTsig"
+  | .algMismatch => "alg-mismatch"
+  | .panic => "panic"
+  | .verified r => showVerify r
+
+/-- spec of op `tvmsg` -/
+def specVerifyMsg (mode : Spec.Tsig.Mode) (alg : Algorithm) (key : Octets) (now : Nat) (msg : Bytes) (pmac : Octets) : String :=
+  match Spec.Tsig.lastRecord msg with
+  | none => "unreadable"
+  | some l =>
+    if l.rrType ≠ 250 then "unreadable"
+    else match Spec.Tsig.parseRdata l.rdata with
+      | none => "unreadable"
+      | some f =>
+        -- C11 does not speak about the TTL field of the TSIG RR: values with the top bit set reach
+        -- `ReadTsigRr::try_from` as 0 (`Ttl::from`); the server rejects them itself (C08)
+        if l.ttl > 2147483647 then "-"
+        else if l.cls ≠ 255 ∨ l.ttl ≠ 0 then "rr:FormErr"
+        else if Spec.Tsig.outputSizeOf f.algName ≠ some (specAlg alg).2 then "alg-mismatch"
+        else specVerify mode alg key now (msg.extract 0 l.start).toList l.owner l.rdata pmac "unreadable"
+
+end TsigD
+
+open TsigD in
+def tsigHandler : Handler := fun op args =>
+  match op, args with
+  | "sha", [a, m] =>
+    match shaArg a, unhex m with
+    | some h, some msg => some (s!"ok {hexOf (h msg)}", "-")
+    | _, _ => some bad
+  | "shavec", [a, m, e] =>
+    match shaArg a, unhex m with
+    | some h, some msg => some (s!"ok {hexOf (h msg)}", s!"ok {e}")
+    | _, _ => some bad
+  | "sharep", [a, o, c, e] =>
+    match shaArg a, unhex o, c.toNat? with
+    | some h, some oct, some n =>
+      if oct.size = 1 then some (s!"ok {hexOf (h (Array.replicate n oct[0]!))}", s!"ok {e}") else some bad
+    | _, _, _ => some bad
+  | "hmac", [a, k, m] =>
+    match algArg a, unhex k, unhex m with
+    | some alg, some key, some msg => some (s!"ok {hexOf (Hmac.hmac alg key msg)}", "-")
+    | _, _, _ => some bad
+  | "hmacvec", [a, k, m, e] =>
+    match algArg a, unhex k, unhex m with
+    | some alg, some key, some msg => some (s!"ok {hexOf (Hmac.hmac alg key msg)}", s!"ok {e}")
+    | _, _, _ => some bad
+  | "tsign", [mode, a, k, m, kn, time, fudge, origid, error, stime, pm] =>
+    match modeArg mode, algArg a, unhexL k, unhexL m, nameArg kn, timeArg time, u16Arg fudge, u16Arg origid,
+          u16Arg error, timeArg stime, unhexL pm with
+    | some mode, some alg, some key, some msg, some keyname, some t, some f, some oid, some err, some st, some pmac =>
+      let p : PreparedTsigRr := ⟨lowerName keyname, t, f, oid, err, st⟩
+      some (showSign (modelSign mode p msg pmac alg key),
+            specSign mode alg key msg keyname t.toUnix f.toNat oid.toNat err.toNat st.toUnix pmac)
+    | _, _, _, _, _, _, _, _, _, _, _ => some bad
+  | "twrite", [mode, a, k, kn, time, fudge, origid, error, stime, pm, _recipe, pre] =>
+    match modeArg mode, algArg a, unhexL k, unhexL pre, nameArg kn, timeArg time, u16Arg fudge, u16Arg origid,
+          u16Arg error, timeArg stime, unhexL pm with
+    | some mode, some alg, some key, some msg, some keyname, some t, some f, some oid, some err, some st, some pmac =>
+      let p : PreparedTsigRr := ⟨lowerName keyname, t, f, oid, err, st⟩
+      let owner := " " ++ hexL (lowerName keyname)
+      let sp := specSign mode alg key msg keyname t.toUnix f.toNat oid.toNat err.toNat st.toUnix pmac
+      let specOwner := match Spec.Tsig.labelsOf keyname with
+        | some ls => " " ++ hexL (Spec.Tsig.canonName ls)
+        | none => ""
+      some (match modelSign mode p msg pmac alg key with
+            | .ok (rdata, mac) => s!"ok {hexL mac} {hexL rdata}{owner}"
+            | .err _ => "err"
+            | .panic => "panic",
+            if sp = "-" then "-" else sp ++ specOwner)
+    | _, _, _, _, _, _, _, _, _, _, _ => some bad
+  | "tverify", [mode, a, k, now, m, kn, rd, pm] =>
+    match modeArg mode, algArg a, unhexL k, timeArg now, unhexL m, nameArg kn, unhexL rd, unhexL pm with
+    | some mode, some alg, some key, some now, some msg, some keyname, some rdata, some pmac =>
+      if rdata.length > 65535 then some bad else
+      let model :=
+        match validateAsTsig rdata with
+        | .panic => "panic"
+        | .err _ => "invalid-rdata"
+        | .ok _ =>
+          match ReadTsigRr.tryFrom keyname Gen.TYPE_TSIG Gen.QCLASS_ANY 0 rdata with
+          | .panic => "panic"
+          | .err e => "rr:" ++ e.toString
+          | .ok r => showVerify (modelVerify mode r msg pmac alg key now)
+      some (model, specVerify mode alg key now.toUnix msg keyname rdata pmac "invalid-rdata")
+    | _, _, _, _, _, _, _, _ => some bad
+  | "tvmsg", [mode, a, k, now, m, pm] =>
+    match modeArg mode, algArg a, unhexL k, timeArg now, unhex m, unhexL pm with
+    | some mode, some alg, some key, some now, some msg, some pmac =>
+      let verify := fun (r : ReadTsigRr) (pre : Octets) => modelVerify mode r pre pmac alg key now
+      some (showMsgOutcome (Msg.verifyMessage verify alg msg), specVerifyMsg mode alg key now.toUnix msg pmac)
+    | _, _, _, _, _, _ => some bad
+  | _, _ => none
 
 end QV.Driver
